@@ -1,3 +1,343 @@
 // Included into daemon/src/table_manager.rs as `mod verif_harness` (guard: cfg osrg_rustybgp_verif).
+//
+// C18: a deterministic thread scheduler (`sched_point` is called by the cfg-guarded hooks right before every shard-lock
+// acquisition of insert_route / remove_route / unregister_peer / subscribe and at the start of peer_down) and the replay
+// of spec/Subscribe/Subscribe.tla behaviours on the real TableManager with real OS threads: every model step is
+// "thread T runs from the point where it is parked to its next point".
+//
+// Input (VERIF_IN ends ".sub.in"):
+//   walk <prog: A|B|C> <ends: comma list of sessions or ->
+//   <thread> <step>          one line per model step (thread: t1|t2|u1|u2; step: informational)
+// Output: per walk {"walk":..}, per step {"at": point reached, "pre": {...}, "post": {...}}, and at the end of the walk
+//   {"final": true, "subs": {u: {"pre":{..},"post":{..},"events":n}}, "rib": {...}}
 #[allow(unused_imports)]
 use super::*;
+use std::collections::HashMap;
+use std::net::Ipv4Addr;
+use std::io::Write as _;
+use std::sync::{Condvar, Mutex as StdMutex};
+
+struct Sched {
+    parked: HashMap<usize, String>,
+    go: std::collections::HashSet<usize>,
+    done: std::collections::HashSet<usize>,
+}
+
+static SCHED: StdMutex<Option<Sched>> = StdMutex::new(None);
+static CV: Condvar = Condvar::new();
+
+thread_local! {
+    static TID: std::cell::Cell<usize> = const { std::cell::Cell::new(0) };
+}
+
+/// Called from the hooks.  A thread that is not managed by the scheduler passes straight through.
+pub(crate) fn sched_point(name: &str) {
+    let tid = TID.with(|t| t.get());
+    if tid == 0 {
+        return;
+    }
+    let mut g = SCHED.lock().unwrap();
+    if g.is_none() {
+        return;
+    }
+    g.as_mut().unwrap().parked.insert(tid, name.to_string());
+    CV.notify_all();
+    loop {
+        match g.as_mut() {
+            None => return, // scheduling was switched off: run freely to the end
+            Some(s) => {
+                if s.go.remove(&tid) {
+                    s.parked.remove(&tid);
+                    return;
+                }
+            }
+        }
+        g = CV.wait(g).unwrap();
+    }
+}
+
+fn spawn_managed<F: FnOnce() + Send + 'static>(tid: usize, f: F) -> std::thread::JoinHandle<()> {
+    std::thread::spawn(move || {
+        TID.with(|t| t.set(tid));
+        sched_point("start");
+        f();
+        let mut g = SCHED.lock().unwrap();
+        if let Some(s) = g.as_mut() {
+            s.done.insert(tid);
+        }
+        CV.notify_all();
+    })
+}
+
+/// Wait until `tid` is parked (returns the point) or finished ("done"); None on timeout.
+fn wait_parked(tid: usize) -> Option<String> {
+    let mut g = SCHED.lock().unwrap();
+    let deadline = std::time::Instant::now() + std::time::Duration::from_secs(5);
+    loop {
+        {
+            let Some(s) = g.as_ref() else { return None };
+            if let Some(p) = s.parked.get(&tid)
+                && !s.go.contains(&tid)
+            {
+                return Some(p.clone());
+            }
+            if s.done.contains(&tid) {
+                return Some("done".to_string());
+            }
+        }
+        let now = std::time::Instant::now();
+        if now >= deadline {
+            return None;
+        }
+        g = CV.wait_timeout(g, deadline - now).unwrap().0;
+    }
+}
+
+/// One model step: let `tid` run to its next point.
+fn advance(tid: usize) -> Option<String> {
+    wait_parked(tid)?;
+    {
+        let mut g = SCHED.lock().unwrap();
+        let Some(s) = g.as_mut() else { return None };
+        if s.done.contains(&tid) {
+            return Some("done".to_string());
+        }
+        s.go.insert(tid);
+        CV.notify_all();
+    }
+    wait_parked(tid)
+}
+
+fn sub_key_nlri(tm: &TableManager, k: &str) -> packet::Nlri {
+    // k1, k3 on shard 0; k2 on shard 1 (the model's shards 1 and 2)
+    let want = if k == "k2" { 1 } else { 0 };
+    let third = match k {
+        "k1" => 1u8,
+        "k2" => 2,
+        _ => 3,
+    };
+    for x in 0..=255u8 {
+        let n = packet::Nlri::V4(packet::bgp::Ipv4Net { addr: Ipv4Addr::new(10, third, x, 0), mask: 24 });
+        if tm.dealer(&n) == want {
+            return n;
+        }
+    }
+    panic!("harness: no prefix for shard");
+}
+
+fn sub_key_of(n: &packet::Nlri) -> &'static str {
+    match n {
+        packet::Nlri::V4(x) => match x.addr.octets()[1] {
+            1 => "k1",
+            2 => "k2",
+            _ => "k3",
+        },
+        _ => "?",
+    }
+}
+
+const REJ_COMM: u32 = (65000 << 16) | 666;
+
+fn sub_attrs(val: u32) -> Arc<Vec<packet::Attribute>> {
+    let mut v = vec![
+        packet::Attribute::new_with_value(packet::Attribute::ORIGIN, 0).unwrap(),
+        packet::Attribute::new_with_bin(packet::Attribute::AS_PATH, vec![2, 1, 0, 0, 0xfd, 0xe9]).unwrap(),
+    ];
+    if val == 2 {
+        v.push(packet::Attribute::new_with_bin(packet::Attribute::COMMUNITY, REJ_COMM.to_be_bytes().to_vec()).unwrap());
+    }
+    Arc::new(v)
+}
+
+fn sub_val(attrs: Option<&Arc<Vec<packet::Attribute>>>) -> u32 {
+    match attrs {
+        None => 0,
+        Some(a) => {
+            if a.iter().any(|x| x.code() == packet::Attribute::COMMUNITY) {
+                2
+            } else {
+                1
+            }
+        }
+    }
+}
+
+fn sub_rib_json(tm: &TableManager) -> String {
+    let mut pre: HashMap<&str, u32> = HashMap::new();
+    let mut post: HashMap<&str, u32> = HashMap::new();
+    for shard in &tm.shards {
+        let t = shard.lock().unwrap();
+        for r in t.rtable.iter_reach(Family::IPV4) {
+            pre.insert(sub_key_of(&r.net.nlri), sub_val(Some(&r.attr)));
+        }
+        for r in t.rtable.iter_reach_post(Family::IPV4) {
+            post.insert(sub_key_of(&r.net.nlri), sub_val(Some(&r.attr)));
+        }
+    }
+    sub_views_json(&pre, &post)
+}
+
+fn sub_views_json(pre: &HashMap<&str, u32>, post: &HashMap<&str, u32>) -> String {
+    let f = |m: &HashMap<&str, u32>| {
+        format!(
+            "{{\"k1\":{},\"k2\":{},\"k3\":{}}}",
+            m.get("k1").copied().unwrap_or(0),
+            m.get("k2").copied().unwrap_or(0),
+            m.get("k3").copied().unwrap_or(0)
+        )
+    };
+    format!("{{\"pre\":{},\"post\":{}}}", f(pre), f(post))
+}
+
+fn sub_prog(name: &str, t: &str) -> Vec<(&'static str, u32)> {
+    match (name, t) {
+        ("A", "t1") => vec![("k1", 1), ("k2", 2), ("k1", 0)],
+        ("A", "t2") => vec![("k3", 1), ("k3", 2)],
+        ("B", "t1") => vec![("k2", 1), ("k1", 1), ("k2", 2)],
+        ("B", "t2") => vec![("k3", 2), ("k3", 1), ("k3", 0)],
+        ("C", "t1") => vec![("k1", 1)],
+        ("C", "t2") => vec![("k3", 1)],
+        _ => panic!("harness: program"),
+    }
+}
+
+#[test]
+fn subscribe_replay() {
+    let Ok(inp) = std::env::var("VERIF_IN") else {
+        return;
+    };
+    if !inp.ends_with(".sub.in") {
+        return;
+    }
+    let outp = std::env::var("VERIF_OUT").expect("VERIF_OUT");
+    let text = std::fs::read_to_string(&inp).expect("read VERIF_IN");
+    let mut out = std::io::BufWriter::new(std::fs::File::create(&outp).expect("create VERIF_OUT"));
+    let lines: Vec<&str> = text.lines().collect();
+    let mut i = 0;
+    while i < lines.len() {
+        let head: Vec<&str> = lines[i].split_whitespace().collect();
+        if head.is_empty() || head[0] != "walk" {
+            i += 1;
+            continue;
+        }
+        let mut j = i + 1;
+        while j < lines.len() && !lines[j].starts_with("walk") {
+            j += 1;
+        }
+        let steps: Vec<Vec<&str>> = lines[i + 1..j].iter().map(|l| l.split_whitespace().collect::<Vec<&str>>()).filter(|t| !t.is_empty()).collect();
+        i = j;
+        let prog = head[1].to_string();
+        let ends: Vec<String> = if head[2] == "-" { vec![] } else { head[2].split(',').map(|s| s.to_string()).collect() };
+        writeln!(out, "{{\"walk\":true}}").unwrap();
+
+        // fresh world: two shards, an import policy that rejects the marked community
+        let tm: Arc<TableManager> = Arc::new(TableManager::new(2));
+        {
+            let mut pt = table::PolicyTable::new();
+            pt.add_defined_set(table::DefinedSetConfig::Community { name: "rej".into(), patterns: vec!["65000:666".into()] }).unwrap();
+            pt.add_statement("s", vec![table::ConditionConfig::CommunitySet("rej".into(), table::MatchOption::Any)], Some(table::Disposition::Reject), table::Actions::default()).unwrap();
+            pt.add_policy("p", vec!["s".into()]).unwrap();
+            let (_, a) = pt.add_assignment("global", table::PolicyDirection::Import, table::Disposition::Accept, vec!["p".into()]).unwrap();
+            tm.import_policy.store(Some(a));
+        }
+        *SCHED.lock().unwrap() = Some(Sched { parked: HashMap::new(), go: Default::default(), done: Default::default() });
+        let tids: HashMap<&str, usize> = [("t1", 1usize), ("t2", 2), ("u1", 3), ("u2", 4)].into_iter().collect();
+        let mut handles = Vec::new();
+        let (sub_tx, sub_rx) = std::sync::mpsc::channel::<(String, Subscription)>();
+        for (t, peer_last) in [("t1", 1u8), ("t2", 2u8)] {
+            let tm2 = tm.clone();
+            let prog2 = prog.clone();
+            let ends2 = ends.iter().any(|e| e == t);
+            let tname = t.to_string();
+            handles.push(spawn_managed(tids[t], move || {
+                let addr = IpAddr::V4(Ipv4Addr::new(192, 0, 2, peer_last));
+                let source = Arc::new(table::Source::new(addr, IpAddr::V4(Ipv4Addr::new(192, 0, 2, 254)), 65000 + peer_last as u32, 65000, Ipv4Addr::new(9, 9, 9, peer_last), table::PeerRole::Ebgp));
+                for (k, v) in sub_prog(&prog2, &tname) {
+                    let net = packet::PathNlri { path_id: 0, nlri: sub_key_nlri(&tm2, k) };
+                    if v == 0 {
+                        tm2.remove_route(source.clone(), Family::IPV4, net, None, 0);
+                    } else {
+                        tm2.insert_route(source.clone(), Family::IPV4, net, Some(bgp::Nexthop::V4(Ipv4Addr::new(192, 0, 2, peer_last))), sub_attrs(v), None, 0);
+                    }
+                    sched_point("between calls");
+                }
+                if ends2 {
+                    tm2.unregister_peer(addr, &[Family::IPV4], &[]);
+                    tm2.peer_down(PeerDownData { peer_addr: addr, peer_asn: 65000 + peer_last as u32, peer_id: 0, uptime: 0, reason: crate::bmp::session_down_to_bmp(None) });
+                }
+            }));
+        }
+        for u in ["u1", "u2"] {
+            let tm2 = tm.clone();
+            let tx = sub_tx.clone();
+            let uname = u.to_string();
+            handles.push(spawn_managed(tids[u], move || {
+                let s = tm2.subscribe(true);
+                let _ = tx.send((uname, s));
+            }));
+        }
+        let mut ok = true;
+        for st in &steps {
+            let tid = tids[st[0]];
+            let at = if ok { advance(tid) } else { None };
+            match at {
+                Some(p) => writeln!(out, "{{\"at\":\"{}\",\"rib\":{}}}", p, sub_rib_json(&tm)).unwrap(),
+                None => {
+                    ok = false;
+                    writeln!(out, "{{\"at\":\"stuck\",\"rib\":{}}}", "{\"pre\":{\"k1\":0,\"k2\":0,\"k3\":0},\"post\":{\"k1\":0,\"k2\":0,\"k3\":0}}").unwrap()
+                }
+            }
+        }
+        // which subscribers took part in this walk
+        let used: Vec<&str> = ["u1", "u2"].into_iter().filter(|u| steps.iter().any(|s| s[0] == *u)).collect();
+        // let everything that is still parked run to the end (unused threads included), then stop scheduling
+        {
+            let mut g = SCHED.lock().unwrap();
+            *g = None;
+            CV.notify_all();
+        }
+        // parked threads wait on `go`: wake them by making the scheduler inactive
+        for h in handles {
+            let _ = h.join();
+        }
+        let mut subs_json = Vec::new();
+        let mut got: HashMap<String, Subscription> = HashMap::new();
+        while let Ok((u, s)) = sub_rx.try_recv() {
+            got.insert(u, s);
+        }
+        for u in used {
+            let Some(mut s) = got.remove(u) else { continue };
+            let mut pre: HashMap<&str, u32> = HashMap::new();
+            let mut post: HashMap<&str, u32> = HashMap::new();
+            let mut n = 0;
+            let mut ups_downs = Vec::new();
+            while let Ok(ev) = s.rx.try_recv() {
+                n += 1;
+                match ev {
+                    BgpEvent::AdjRibIn(c) => {
+                        for x in &c.nlris {
+                            pre.insert(sub_key_of(&x.nlri), sub_val(c.attrs.as_ref()));
+                        }
+                    }
+                    BgpEvent::AdjRibInPost(c) => {
+                        for x in &c.nlris {
+                            post.insert(sub_key_of(&x.nlri), sub_val(c.attrs.as_ref()));
+                        }
+                    }
+                    BgpEvent::PeerDown(d) => {
+                        let keys: &[&str] = if d.peer_addr == IpAddr::V4(Ipv4Addr::new(192, 0, 2, 1)) { &["k1", "k2"] } else { &["k3"] };
+                        for k in keys {
+                            pre.remove(k);
+                            post.remove(k);
+                        }
+                        ups_downs.push(format!("\"down:{}\"", d.peer_addr));
+                    }
+                    _ => {}
+                }
+            }
+            subs_json.push(format!("\"{}\":{{\"view\":{},\"events\":{}}}", u, sub_views_json(&pre, &post), n));
+        }
+        writeln!(out, "{{\"final\":true,\"completed\":{},\"subs\":{{{}}},\"rib\":{}}}", ok, subs_json.join(","), sub_rib_json(&tm)).unwrap();
+    }
+    out.flush().unwrap();
+}
